@@ -39,6 +39,9 @@
                bound to an exception object (`excVal exc`, a record).  The translator only accepts a body that is
                ONE statement without effects, so that no assignment / effect of the body is lost by this.
                `.stuck` is never caught.
+             * Round 3: `str + str` concatenates; `list(obj)` of an iterable OBJECT (record) is its pseudo field `__iter__`;
+               `while c: body` is `.whileF fuel c body` (`whileLoop`): the fuel is evaluated once, at most that many
+               iterations run, a condition that still holds afterwards is `.stuck`.
              * BOUND-METHOD CALLS `x = self.m(a, …)` of a method that is itself translated (`callFn`): the
                arguments are evaluated in the caller's state, the callee's body (`Fc.Gen.<m>Src.body`, referred to
                by name in the rendering) runs in a FRESH environment binding its parameters, with an empty
@@ -209,6 +212,10 @@ inductive Stmt where
   /-- `x = f(args)` for a function `f` that is itself translated (`params`, `body` are those of its `Fn`):
       fresh environment, own trace appended to the caller's -/
   | callFn (x : String) (params : List String) (body : List Stmt) (args : List Expr)
+  /-- `while c: body` with FUEL: `fuel` is evaluated once (an int `n`); at most `n` iterations are run, and if the
+      condition still holds then the result is `.stuck` (never a default).  The translator writes the external
+      constant `while-fuel` here; theorems hold for every fuel that suffices. -/
+  | whileF (fuel : Expr) (c : Expr) (body : List Stmt)
 
 structure Fn where
   name : String
@@ -235,6 +242,7 @@ def getAttr (v : Val) (f : String) : Res Val :=
 def binop (op : BinOp) (x y : Val) : Res Val :=
   match op, x, y with
   | .add, .list a, .list b => .ok (.list (a ++ b))
+  | .add, .str a, .str b => .ok (.str (a ++ b))
   | _, _, _ =>
     match x.asInt, y.asInt with
     | some a, some b =>
@@ -366,6 +374,11 @@ def builtin (f : Builtin) (args : List Val) : Res Val :=
     | .raise e => .raise e
     | .stuck => .stuck
   | .zip, [.list xs, .list ys] => .ok (.list (List.zipWith (fun a b => Val.list [a, b]) xs ys))
+  | .zip, [.record fs, .record gs] =>
+    -- `zip(a, b)` of two iterable OBJECTS, consumed at once: their items are the pseudo fields `__iter__`
+    match fs.lookup "__iter__", gs.lookup "__iter__" with
+    | some (.list xs), some (.list ys) => .ok (.list (List.zipWith (fun a b => Val.list [a, b]) xs ys))
+    | _, _ => .stuck
   | .items, [.dict kvs] => .ok (.list (kvs.map fun kv => Val.list [kv.1, kv.2]))
   | .int, [v] => match v.asInt with | some a => .ok (.int a) | Option.none => .stuck
   | .bool, [v] => v.truthy.map .bool
@@ -374,6 +387,12 @@ def builtin (f : Builtin) (args : List Val) : Res Val :=
   | .max, [.int a, .int b] => .ok (.int (if a < b then b else a))
   | .range, [.int n] => .ok (.list ((List.range n.toNat).map fun (k : Nat) => Val.int (k : Int)))
   | .list, [.list xs] => .ok (.list xs)
+  | .list, [.record fs] =>
+    -- `list(obj)` of an iterable OBJECT: its items are the pseudo field `__iter__` (what its class's `__iter__` yields,
+    -- supplied as data by whoever builds the record, like `__bool__`)
+    match fs.lookup "__iter__" with
+    | some (.list xs) => .ok (.list xs)
+    | _ => .stuck
   | .reduceMul, [.list xs, .int init] =>
     match intsOf xs with
     | some l => .ok (.int (l.foldl (· * ·) init))
@@ -506,6 +525,24 @@ def callRet (x : String) (st : St) : Flow → Flow
   | .raise exc => .raise exc
   | .stuck => .stuck
 
+/-- the loop of `while c: body` with fuel (`cond`, `body` are the evaluated condition and block) -/
+def whileLoop (cond : St → Res Bool) (body : St → Flow) : Nat → St → Flow
+  | 0, st =>
+    match cond st with
+    | .ok false => .next st
+    | .ok true => .stuck
+    | .raise e => .raise e
+    | .stuck => .stuck
+  | k + 1, st =>
+    match cond st with
+    | .ok true =>
+      match body st with
+      | .next st' => whileLoop cond body k st'
+      | r => r
+    | .ok false => .next st
+    | .raise e => .raise e
+    | .stuck => .stuck
+
 mutual
 def exec (X : Ext) : Stmt → St → Flow
   | .assign x e, st => withVal (eval X e st.env) fun v => .next (st.set x v)
@@ -549,6 +586,11 @@ def exec (X : Ext) : Stmt → St → Flow
     | .ok vs => callRet x st (enterCall ps vs (execBlock X body))
     | .raise exc => .raise exc
     | .stuck => .stuck
+  | .whileF f c body, st =>
+    withVal (eval X f st.env) fun v =>
+      match v with
+      | .int n => whileLoop (fun s => (eval X c s.env).bind Val.truthy) (execBlock X body) n.toNat st
+      | _ => .stuck
 def execBlock (X : Ext) : List Stmt → St → Flow
   | [], st => .next st
   | s :: ss, st =>
